@@ -1500,16 +1500,17 @@ namespace adept {
       ADEPT_STATIC_ASSERT(!(std::numeric_limits<Type>::is_integer
 	    && IsActive), CANNOT_CREATE_ACTIVE_ARRAY_OF_INTEGERS);
 
-      if (storage_) {
-	storage_->remove_link();
-	storage_ = 0;
-      }
-      // Check requested dimensions
+      // Check requested dimension before releasing the existing
+      // data, so that a failed resize leaves the matrix intact
       if (dim < 0) {
 	throw invalid_dimension("Negative array dimension requested"
 				ADEPT_EXCEPTION_LOCATION);
       }
-      else if (dim == 0) {
+      if (storage_) {
+	storage_->remove_link();
+	storage_ = 0;
+      }
+      if (dim == 0) {
 	clear();
       }
       else {
